@@ -40,7 +40,15 @@ already holds an earlier checkpoint of a DIFFERENT reconstruction state (other s
 iterations / snapshots, other scheduler, other object type / slice count / probe mode count, a validation history,
 written without the raw data, never iterated), written by the library's own save(); later saves of the same case land
 on the run's own earlier checkpoint.  The oracle is unchanged: the reloaded object reports exactly what was saved
-(which learning-rate histories exist included) and continues like the uninterrupted run."""
+(which learning-rate histories exist included) and continues like the uninterrupted run.
+
+Round 7: STAGED RUNS.  case["stage"] = [chg_1, ..., chg_last], one entry per continuation call (the later segments and the
+remaining iterations): the settings that call CHANGES relative to stage 1 - entries of the constraint dictionaries (hard and
+soft; the Gaussian / Butterworth filter entries and their parameters one at a time, for a filter that stage 1 made active
+through cfg["obj_constraints"]), optimiser type / learning rate / set of optimised models, scheduler, a full-batch batch size,
+the loss type, an explicit reset=False, a device (harness/c05_stage.py).  The same call goes to the uninterrupted run, to the
+continued copy and to the live original.  case["blind"]: nothing is read from any object between the checkpoint and the next
+call (the checkpoint is taken and everybody simply carries on); the reported-state clause is then not judged for that case."""
 from __future__ import annotations
 
 import json
@@ -179,6 +187,26 @@ def corpus_cases():
              n=4, k=2, via="meta_dir>dir", prior={"kind": "dataless", "form": "Path"}),
         dict(cfg=base_cfg(optimise=["probe"], opt="adam", sched="cyclic", num_probes=2, snapshots=True), n=3, k=1,
              via="dir", more=[[1, "dir"]], prior={"kind": "probe_only_potential", "form": "str"}),
+        # ---- round 7: staged runs - the continuation changes settings relative to stage 1 ----
+        # a parameter of a filter that stage 1 made active, changed alone
+        dict(cfg=base_cfg(opt="adam", sched="none", obj_constraints={"q_lowpass": 0.45}), n=4, k=2, via="zip", blind=True,
+             stage=[{"kind": "cons/object/butterworth_order", "constraints": {"object": {"butterworth_order": 1}}}]),
+        dict(cfg=base_cfg(opt="adamw", sched="exp", obj_type="potential",
+                          obj_constraints={"q_lowpass": 0.6, "q_highpass": 0.1, "butterworth_order": 2}), n=4, k=2,
+             via="clone", stage=[{"kind": "cons/object/q_highpass", "constraints": {"object": {"q_highpass": 0.06}}}]),
+        dict(cfg=base_cfg(opt="sgd_momentum", sched="linear", obj_type="pure_phase", num_probes=2,
+                          obj_constraints={"gaussian_sigma": 0.8}), n=5, k=2, via="dir", blind=True, more=[[1, "clone"]],
+             stage=[{"kind": "cons/object/gaussian_sigma", "constraints": {"object": {"gaussian_sigma": 0.5}}},
+                    {"kind": "cons/object/q_lowpass", "constraints": {"object": {"q_lowpass": 0.45}}}]),
+        # other optimiser type and learning rates, scheduler kept; soft constraint weights
+        dict(cfg=base_cfg(optimise=["object", "probe", "dataset"], opt="adam", sched="exp"), n=4, k=2, via="zip+to",
+             stage=[{"kind": "opt/type", "opt": {"object": {"type": "sgd_momentum", "lr": 5e-3},
+                                                 "probe": {"type": "sgd_momentum", "lr": 1e-3},
+                                                 "dataset": {"type": "sgd_momentum", "lr": 1e-3}},
+                     "constraints": {"object": {"tv_weight_xy": 0.02}, "dataset": {"descan_tv_weight": 0.02}}}]),
+        # loss type and (full-batch) batch size
+        dict(cfg=base_cfg(opt="adamw", sched="plateau"), n=4, k=1, via="clone_fallback", blind=True,
+             stage=[{"kind": "loss_type", "loss_type": "l1_intensity", "batch": [1, 3]}]),
     ]
     from ..common import VERIF
     p = VERIF / "corpus" / "C05" / "corpus.json"
@@ -190,7 +218,7 @@ def corpus_cases():
 def gen_cases(ctx: Ctx):
     r = ctx.rng
     cases = corpus_cases()
-    n_gen = ctx.budget(48, 640)
+    n_gen = ctx.budget(43, 640)
 
     def cyc(vals):
         vals = list(vals)
@@ -220,6 +248,11 @@ def gen_cases(ctx: Ctx):
         priors = priors[:4]     # a seeded subset per quick run (each pooled earlier checkpoint costs a save); the corpus
                                 # cases use four kinds on every run, the thorough tier all seven
     r5_shift, n_saving = r.randrange(0, 14), 0
+    # round 7: staged runs (every third generated case): the kinds of change, cycled - every second staged case changes
+    # constraint entries (one at a time), the others the optimiser / scheduler / batch / loss / reset / device settings
+    from ..c05_stage import CONS_KINDS, OTHER_KINDS, gen_stage
+    cons_kinds, other_kinds = cyc(CONS_KINDS), cyc(OTHER_KINDS)
+    r7_shift, n_staged = r.randrange(0, 3), 0
     for i in range(n_gen):
         n = r.choice([2, 3, 4, 5] if ctx.quick else [1, 2, 3, 4, 5, 6, 8])
         k = r.choice([0, n, r.randint(0, n), r.randint(1, max(1, n - 1)), r.randint(1, max(1, n - 1))])
@@ -266,6 +299,28 @@ def gen_cases(ctx: Ctx):
             case["reset_last"] = True
         if any(a in META for a in atoms_of(case)):
             cfg.pop("rich_constraints", None)
+        if (i + r7_shift) % 3 == 0:
+            if case["k"] >= n:                      # a continuation call that iterates
+                case["k"] = k = r.randint(0, n - 1)
+                if case.get("more"):
+                    case.pop("more")
+            case.pop("reset_last", None)
+            kinds = cons_kinds if n_staged % 2 == 0 else other_kinds
+            s1, chg = gen_stage(r, cfg, kinds[(n_staged // 2) % len(kinds)])
+            if s1:
+                cfg["obj_constraints"] = s1
+            n_calls = len(case.get("more", [])) + 1
+            at = r.randrange(n_calls)
+            # a checkpoint written WITHOUT the raw data carries neither the dataset's constraints nor its optimiser (they
+            # belong to the dataset supplied at load time: outside the claim, see the assumptions): a change that gives
+            # the dataset constraint entries or an optimiser comes after such a checkpoint, i.e. with the last call
+            if any(a in META for a in atoms_of(case)) and ("dataset" in chg.get("constraints", {}) or any(
+                    k_ == "dataset" and v_["type"] != "none" for k_, v_ in chg.get("opt", {}).items())):
+                at = n_calls - 1
+            case["stage"] = [chg if c_ == at else {} for c_ in range(n_calls)]
+            if n_staged % 4 in (0, 3):
+                case["blind"] = True
+            n_staged += 1
         if any(a in SAVING for a in atoms_of(case)):
             n_saving += 1
             j5 = n_saving + r5_shift
@@ -324,20 +379,36 @@ def run_case(case, workdir):
     cfg = case["cfg"]
     segs, rest = segments(case)
     reset_last = bool(case.get("reset_last"))
+    stage = list(case.get("stage") or [])
+    stage += [{}] * (len(segs) - len(stage))        # stage[j-1]: segment j >= 1; stage[len(segs)-1]: the remaining iterations
+    blind = bool(case.get("blind"))
+    from ..c05_stage import model_ops, opt_state
+    ostate = opt_state(cfg)
+    stage_ops = [model_ops(ostate, chg) for chg in stage]     # None: the model cannot follow from there on
     tag = str(os.getpid())
     prior = case.get("prior")
     T.clean_targets(workdir, tag)
     out = {"prior_rel": []}
     # the uninterrupted run, with the same calls
     ref = T.build(cfg)
+    masks = []
     for j, (kj, _) in enumerate(segs):
         if j == 0:
             T.first_call(ref, cfg, kj)
         else:
-            T.cont(ref, kj, cfg)
-    T.cont(ref, rest, cfg, reset=reset_last)
+            T.cont(ref, kj, cfg, stage=stage[j - 1])
+        if kj and case.get("stage"):
+            masks.append(T.grad_mask(ref))
+    T.cont(ref, rest, cfg, reset=reset_last, stage=stage[len(segs) - 1])
     out["ref"] = T.numeric_obs(ref)
     out["mask"] = T.grad_mask(ref)
+    # the model runs a history under ONE gradient mask (which parameters receive a gradient).  A changed setting can
+    # change it (a constant descan: the shifts stop receiving gradients): the model then follows the trace under the
+    # mask of stage 1 up to the first changed call only (the oracle judges the whole history as always)
+    if any(any(row) and row != frow for m_ in masks for row, frow in zip(m_, out["mask"])):
+        out["mask"] = masks[0]
+        stage_ops = [None if chg else sops for chg, sops in zip(stage, stage_ops)]
+        out["mask_changes"] = True
     out["nparams"] = T.nparams(ref)
     out["s_ref"] = T.structure(ref)
     del ref
@@ -351,16 +422,25 @@ def run_case(case, workdir):
     shares = None
 
     def snap(lst, ops, obj, label):
-        if ops:
+        if ops and None not in ops:
             lst.append((len(ops) - 1, label, T.structure(obj)))
+
+    def stage_into(ops, sops):
+        if sops is None:
+            ops.append(None)       # marker: no structural snapshot is compared with the model after this point
+        else:
+            ops.extend(sops)
 
     for j, (kj, atoms) in enumerate(segs):
         if j == 0:
             T.first_call(cur, cfg, kj)
         else:
-            T.cont(cur, kj, cfg)
+            T.cont(cur, kj, cfg, stage=stage[j - 1])
             if cur is not pt:
-                T.cont(pt, kj, cfg)
+                T.cont(pt, kj, cfg, stage=stage[j - 1])
+            stage_into(ops_cur, stage_ops[j - 1])
+            if ops_live is not None:
+                stage_into(ops_live, stage_ops[j - 1])
         ops_cur += ["OpIter"] * kj
         snap(snaps_cur, ops_cur, cur, "after %d iterations of segment %d" % (kj, j))
         if ops_live is not None:
@@ -368,20 +448,21 @@ def run_case(case, workdir):
             snap(snaps_live, ops_live, pt, "after %d iterations of segment %d" % (kj, j))
         if j == 0:
             out["s_k"] = T.structure(cur)
-            out["saved"] = T.numeric_obs(cur)
         for atom in atoms:
-            before = T.numeric_obs(cur)
+            # blind: nothing is read from the objects around the checkpoint (reading `.obj` / `.probe` is a call too)
+            before = None if blind else T.numeric_obs(cur)
             if atom != "to" and T.int_then_frac(cur):
                 out["int_then_frac_at_save"] = True      # coverage statistic only
             if prior and atom in SAVING and not out["prior_rel"]:
-                out["prior_rel"] = T.prior_relation(prior, cfg, before["num_iters"])
+                out["prior_rel"] = T.prior_relation(prior, cfg, int(cur.num_iters))
             new = T.interrupt(cur, atom, workdir, tag=tag, cfg=cfg, prior=prior)
             if cur is pt and new is not pt:
                 ops_live = list(ops_cur) + ([LIVE_OP[atom]] if LIVE_OP[atom] else [])
                 snaps_live = list(snaps_cur)
                 snap(snaps_live, ops_live, pt, "after %s" % atom)
             ops_cur.append(VIA_OP[atom])
-            reports.append((atom, T.numeric_obs(new), before))
+            if not blind:
+                reports.append((atom, T.numeric_obs(new), before))
             cur = new
             snap(snaps_cur, ops_cur, cur, "after %s" % atom)
             if cur is not pt and not shares:
@@ -389,10 +470,11 @@ def run_case(case, workdir):
     T.clean_targets(workdir, tag)
     out["s_q"] = T.structure(cur)
     out["s_live"] = T.structure(pt)
-    out["reported"] = reports[0][1]
     out["reports"] = reports
     out["shares"] = shares
-    T.cont(cur, rest, cfg, reset=reset_last)
+    last = stage[len(segs) - 1]
+    T.cont(cur, rest, cfg, reset=reset_last, stage=last)
+    stage_into(ops_cur, stage_ops[len(segs) - 1])
     ops_cur += ["OpIter"] * rest
     if not reset_last:         # reset_recon is not an operation of the model
         snap(snaps_cur, ops_cur, cur, "after the remaining %d iterations" % rest)
@@ -400,7 +482,8 @@ def run_case(case, workdir):
     out["resumed"] = T.numeric_obs(cur)
     out["separate_live"] = cur is not pt
     if cur is not pt:
-        T.cont(pt, rest, cfg, reset=reset_last)
+        T.cont(pt, rest, cfg, reset=reset_last, stage=last)
+        stage_into(ops_live, stage_ops[len(segs) - 1])
         ops_live += ["OpIter"] * rest
         if not reset_last:
             snap(snaps_live, ops_live, pt, "after the remaining %d iterations" % rest)
@@ -409,8 +492,10 @@ def run_case(case, workdir):
         out["shares_after"] = None
     out["s_liven"] = T.structure(pt)
     out["live"] = T.numeric_obs(pt)
-    out["ops_cur"], out["snaps_cur"] = ops_cur, snaps_cur
-    out["ops_live"], out["snaps_live"] = ops_live, snaps_live
+    # the model follows a trace up to the first setting it has no operation for
+    cut = lambda ops: None if ops is None else ops[:ops.index(None)] if None in ops else ops   # noqa: E731
+    out["ops_cur"], out["snaps_cur"] = cut(ops_cur), snaps_cur
+    out["ops_live"], out["snaps_live"] = cut(ops_live), snaps_live
     return out
 
 
@@ -473,8 +558,14 @@ def oracle(case, res):
 
 def describe_calls(case):
     segs, rest = segments(case)
-    return "; ".join("run %d; %s" % (k, ">".join(at)) for k, at in segs) + "; run %d%s" % (
-        rest, " (reset=True)" if case.get("reset_last") else "")
+    st = list(case.get("stage") or []) + [{}] * len(segs)
+
+    def with_(c):
+        c = {k_: v_ for k_, v_ in (c or {}).items() if k_ != "kind"}
+        return " with %s" % json.dumps(c, sort_keys=True) if c else ""
+
+    return "; ".join("run %d%s; %s" % (k, with_(st[j - 1]) if j else "", ">".join(at)) for j, (k, at) in enumerate(segs)) + (
+        "; run %d%s%s" % (rest, with_(st[len(segs) - 1]), " (reset=True)" if case.get("reset_last") else ""))
 
 
 # ------------------------------------------------------------------------------------------
@@ -525,6 +616,11 @@ def describe(case):
         extra += " reset_last"
     if case.get("prior"):
         extra += " target_holds_earlier_checkpoint=%s(%s)" % (case["prior"]["kind"], case["prior"].get("form", "str"))
+    if c.get("obj_constraints"):
+        extra += " stage1_object_constraints=%s" % json.dumps(c["obj_constraints"], sort_keys=True)
+    if case.get("stage"):
+        extra += " STAGED[%s]%s" % ("; ".join(json.dumps({k_: v_ for k_, v_ in ch.items() if k_ != "kind"}, sort_keys=True)
+                                              for ch in case["stage"]), " blind" if case.get("blind") else "")
     if c.get("num_form"):
         extra += " lr=%s forms=%s" % ({k_: c["lr"][k_] for k_ in c["optimise"]}, {k_: c["num_form"].get(k_, "float") for k_ in c["optimise"]})
     return "opt=%s sched=%s obj=%s probes=%d optimise=%s tilt=%s slices=%d scan=%s n=%d k=%d via=%s%s" % (
@@ -574,7 +670,13 @@ def run(ctx: Ctx):
         "all three models optimised + 7 iterations + a snapshot per iteration; two slices + two probe modes + learned tilt; "
         "probe only + potential object; object + dataset, 2 iterations; written WITHOUT the raw data; object only + "
         "validation history; never iterated), zip and directory stores, target given as str or pathlib.Path, later saves of "
-        "the same case land on the run's own earlier checkpoint; 24 fixed corpus cases first, then a seeded stream cycling "
+        "the same case land on the run's own earlier checkpoint; round 7: STAGED RUNS - in about 27% of the cases (5 corpus cases + every "
+        "third generated one) ONE continuation call changes settings relative to stage 1, identically for the uninterrupted run, the "
+        "continued copy and the live original: a constraint entry (object q_lowpass / q_highpass / butterworth_order / gaussian_sigma of a "
+        "filter that stage 1 made active: switched on / off / one parameter altered; tv weights; fov mask; slices / potential entries; probe "
+        "and dataset entries), several entries, optimiser type, learning rates, one more optimised model, a subset, one optimiser off, the "
+        "scheduler alone or with the optimisers, a full-batch batch size (N, N+3, 4N), the loss type, explicit reset=False, device; half of "
+        "the staged cases BLIND (nothing read from any object between the checkpoint and the next call); 29 fixed corpus cases first, then a seeded stream cycling "
         "through every value of every dimension.  Distinct by (configuration, n, k, via, more); non-trivial when "
         "0 < k < n and at least one optimiser keeps per-parameter state or a scheduler is attached.")
     ctx.assumptions += [
@@ -645,6 +747,20 @@ def run(ctx: Ctx):
                 ctx.dist(f_)
         if case.get("reset_last"):
             ctx.dist("continuation_with_reset")
+        if case.get("stage"):
+            ctx.dist("staged")
+            ctx.dist("staged/%s" % ("blind(nothing_read_between_checkpoint_and_next_call)" if case.get("blind") else "observed"))
+            for ch_ in case["stage"]:
+                if ch_:
+                    ctx.dist("staged/change=%s" % ch_.get("kind", "?"))
+                    for m_, d_ in sorted(ch_.get("constraints", {}).items()):
+                        for k_ in sorted(d_):
+                            ctx.dist("staged/constraint_entry=%s.%s" % (m_, k_))
+                    for f_ in ("opt", "sched", "batch", "loss_type", "reset_false", "device"):
+                        if f_ in ch_:
+                            ctx.dist("staged/setting=%s" % f_)
+            for k_ in sorted(cfg.get("obj_constraints") or {}):
+                ctx.dist("staged/stage1_filter_entry=%s" % k_)
         if cfg["learn_probe_tilt"] and cfg["num_slices"] == 2:
             ctx.dist("probe_tilt_learned+2slices")
         ctx.dist("optimise=%s" % "+".join(cfg["optimise"]))
@@ -675,6 +791,8 @@ def run(ctx: Ctx):
             continue
         bad = oracle(case, res)
         res["bad"] = bad
+        if res.get("mask_changes"):
+            ctx.dist("staged/change_alters_which_parameters_receive_gradients(model_follows_up_to_it)")
         if res.get("int_then_frac_at_save"):
             ctx.dist("saved_lr_history_starts_integer_turns_fractional")
         for rel_ in res["prior_rel"]:
@@ -698,7 +816,7 @@ def run(ctx: Ctx):
             ctx.sample({"case": describe(case), "losses_resumed": res["resumed"]["losses"],
                         "losses_uninterrupted": res["ref"]["losses"], "lrs_resumed": res["resumed"]["lrs"],
                         "structure_after_interrupt": res["s_q"], "oracle": [b[0] for b in bad] or "holds"})
-        for big in ("ref", "resumed", "live", "reports", "saved", "reported"):
+        for big in ("ref", "resumed", "live", "reports"):
             res.pop(big, None)        # the numeric observations are not needed for the correspondence
     try:
         import shutil
